@@ -10,6 +10,7 @@ EXPLANATION = ("C11: on every receive path the wire-controlled length is validat
                "accept loops re-arm on every non-terminal outcome and transports never report the terminal code NNG_ECLOSED "
                "for the failure of a single connection; websocket size limits sum over the list the frames are collected in."
                " Also: an endpoint stores the caller's accept aio before it calls the helper that serves it (R6); the udp DATA handler gets the datagram size minus the header (R8).")
+EXPLANATION += ' Round 3: every protocol message pump (callbacks of aios armed with nni_pipe_recv / nni_msgq_aio_get) re-arms, closes or forwards after it consumed a message (R9); the udp DATA length is compared with the bytes that arrived (R10).'
 
 STREAM_RECV = [("tcptran_pipe_recv_cb", "transport/tcp/tcp.c"), ("ipc_pipe_recv_cb", "transport/ipc/ipc.c"),
                ("sfd_tran_pipe_recv_cb", "transport/socket/sockfd.c")]
